@@ -107,11 +107,11 @@ def scanNumber (bs : Bytes) : Bytes × Bytes :=
   let ip := spanB isDigit bs
   let (mant, r1) : Bytes × Bytes :=
     match ip.2 with
-    | 46 :: t =>
+    | d :: t =>
       -- scan.l: `1..2` is the integer 1 followed by `..`
-      if ip.1 ≠ [] ∧ t.head? == some 46 then (ip.1, ip.2)
-      else let fp := spanB isDigit t; (ip.1 ++ 46 :: fp.1, fp.2)
-    | _ => (ip.1, ip.2)
+      if d = 46 ∧ ¬ (ip.1 ≠ [] ∧ t.head? == some 46) then (let fp := spanB isDigit t; (ip.1 ++ 46 :: fp.1, fp.2))
+      else (ip.1, ip.2)
+    | [] => (ip.1, [])
   match r1 with
   | e :: t =>
     if e = 101 ∨ e = 69 then
